@@ -65,37 +65,45 @@ def outToJson : Out → Json
 
 inductive Event where
   | parse (t : String)
-  | handler (key : TKey) (h : Option String)
+  | handler (key : TKey) (h : Option String) (raiseExc : Bool)
   | user (f : String)
   | nested (evs : List Event) (out : Out)
 
 partial def eventOfJson (j : Json) : Except String Event := do
   match ← arr j with
   | [.str "parse", .str t] => return .parse t
-  | [.str "handler", .str ty, .str op, .str h] => return .handler (ty, op) (some h)
-  | [.str "handler", .str ty, .str op, .null] => return .handler (ty, op) none
+  | [.str "handler", .str ty, .str op, .str h, .bool re] => return .handler (ty, op) (some h) re
+  | [.str "handler", .str ty, .str op, .null, .bool re] => return .handler (ty, op) none re
   | [.str "user", .str f] => return .user f
   | [.str "nested", evs, out] => return .nested (← (← arr evs).mapM eventOfJson) (← outOfJson out)
   | _ => throw s!"bad event {j.compress}"
 
 instance : Inhabited Ev := ⟨.ret default⟩
 
-/-- the evaluation a log of shared accesses stands for; a failing cache lookup (which the
-    theorems exclude) would surface as the KeyError it is -/
+/-- what the logged lookup returned when the call ran alone -/
+def loggedHRes (h : Option String) (raiseExc : Bool) : HRes :=
+  match h with
+  | some x => .found x
+  | none => if raiseExc then .unregistered else .noHandler
+
+/-- the evaluation a log of shared accesses stands for: the call goes on as logged as long as every
+    shared access gives it what it gave when the call ran alone; an access that gives it something
+    else (another path, `False` instead of `UnregisteredTarget`, a KeyError) makes the MODEL's call end
+    differently from the alone outcome (`ModelDiverged`) -/
 partial def evOf : List Event → Out → Ev
   | [], o => .ret o
   | .parse t :: r, o => .parse t fun res => match res with
-    | .ok _ => evOf r o
+    | .ok p => if p == create t then evOf r o else .ret (.err "ModelDiverged" s!"parse of {t}")
     | .error e => .ret (.err e "cache lookup failed")
-  | .handler key _ :: r, o => .handler key fun res => match res with
-    | .ok _ => evOf r o
+  | .handler key h re :: r, o => .handler key re fun res => match res with
+    | .ok x => if x == loggedHRes h re then evOf r o else .ret (.err "ModelDiverged" s!"handler lookup {key.1}:{key.2}")
     | .error e => .ret (.err e "type cache lookup failed")
   | .user f :: r, o => .user f (evOf r o)
   | .nested evs io :: r, o => .nested (evOf evs io) fun _ => evOf r o
 
 partial def regOf : List Event → List (TKey × String)
   | [] => []
-  | .handler key (some h) :: r => (key, h) :: regOf r
+  | .handler key (some h) _ :: r => (key, h) :: regOf r
   | .nested evs _ :: r => regOf evs ++ regOf r
   | _ :: r => regOf r
 
@@ -165,6 +173,7 @@ def valOfJson (j : Json) : Except String Arg.Val := do
 def opOfJson (j : Json) : Except String Arg.Op := do
   match ← arr j with
   | [.str "bind", a] => return .bind (.ref (← a.getNat?))
+  | [.str "bindraw", a] => return .bindRaw (.ref (← a.getNat?))
   | [.str "push", p, .str x] => return .push (← (← arr p).mapM fun i => i.getNat?) x
   | [.str "read"] => return .read
   | [.str "yield"] => return .yield
@@ -189,10 +198,11 @@ def runArg (aj impl : Json) : Except String (Bool × Bool × Json) := do
     return ({ ev := fun s => (dlookup s table).getD s, ops := ops } : Arg.Thread)
   let alone ← tjs.mapM fun tj => do strs (← tj.getObjVal? "alone")
   let nYields (t : Arg.Thread) : Nat := (t.ops.filter fun o => match o with | .yield => true | _ => false).length
-  let schedule : List Nat ← (match aj.getObjVal? "schedule" with
-    | .ok (.arr a) => a.toList.mapM (fun x => x.getNat?)
-    | _ => pure ((List.range threads.length).flatMap fun i =>
-        List.replicate ((threads[i]?.map nYields).getD 0 + 1) i))
+  let schedule : List Nat ← (match ← aj.getObjVal? "schedule" with
+    | .arr a => a.toList.mapM (fun x => x.getNat?)
+    | .null => pure ((List.range threads.length).flatMap fun i =>
+        List.replicate ((threads[i]?.map nYields).getD 0 + 1) i)
+    | x => throw s!"bad schedule {x.compress}")
   let sys := (Arg.Sys.mk heap threads).runSegments false argFuel 10000 schedule
   let finished := sys.threads.all fun t => t.ops.isEmpty
   let mReads := sys.threads.map Arg.lastRead
@@ -278,10 +288,12 @@ def run (j : Json) : Except String Json := do
   let reg : Reg := fun key => dlookup key regTable
   let progs := threads.map fun t => compile max reg (evOf t.1 t.2)
   let alone := threads.map (·.2)
-  let schedule : List Nat ← (match j.getObjVal? "schedule" with
-    | .ok (.arr a) => a.toList.mapM (fun x => x.getNat?)
-    | _ => pure ((List.range threads.length).flatMap fun i =>
-        List.replicate ((threads[i]?.map (fun t => countUser t.1)).getD 0 + 1) i))
+  -- (`null`: free-running or a single outer call: any order will do for the model, by `c20_noninterference`)
+  let schedule : List Nat ← (match ← j.getObjVal? "schedule" with
+    | .arr a => a.toList.mapM (fun x => x.getNat?)
+    | .null => pure ((List.range threads.length).flatMap fun i =>
+        List.replicate ((threads[i]?.map (fun t => countUser t.1)).getD 0 + 1) i)
+    | x => throw s!"bad schedule {x.compress}")
   let sys0 : Sys := ⟨{}, progs⟩
   let sys := sys0.runSegments 100000 schedule
   let mOuts := sys.threads.map fun p => match p with
@@ -297,15 +309,21 @@ def run (j : Json) : Except String Json := do
     match ← arr e with
     | [.str ty, .str op, .str c, .str f] => return ((ty, op), c, f)
     | _ => throw s!"bad tcache entry {e.compress}"
-  let deadlock := (impl.getObjValAs? Bool "deadlock").toOption.getD false
-  let specSame := (impl.getObjValAs? Bool "spec_same").toOption.getD true
+  -- every field is required; `null` says "does not apply to this mode" (the harness says so, it is not a default)
+  let mode ← j.getObjValAs? String "mode"
+  let deadlock ← impl.getObjValAs? Bool "deadlock"
+  let specSame ← (match ← impl.getObjVal? "spec_same" with
+    | .bool b => pure b
+    | .null => if mode == "shared" then throw "spec_same is required in mode shared" else pure true
+    | x => throw s!"bad spec_same {x.compress}")
   let obs : Obs := ⟨iOuts, pc, tc, deadlock, specSame⟩
-  let (argAgree, argHolds, argModel) ← (match j.getObjVal? "argsys" with
-    | .ok aj => runArg aj impl
-    | .error _ => pure (true, true, Json.null))
-  let (errAgree, errHolds, errModel) ← (match j.getObjVal? "errhist" with
-    | .ok hj => runErrHist hj alone
-    | .error _ => pure (true, true, Json.null))
+  let (argAgree, argHolds, argModel) ← (match ← j.getObjVal? "argsys" with
+    | .null => pure (true, true, Json.null)
+    | aj => runArg aj impl)
+  let (errAgree, errHolds, errModel) ← (match ← j.getObjVal? "errhist" with
+    | .null => if mode == "nested" || mode == "reent" then throw s!"errhist is required in mode {mode}"
+               else pure (true, true, Json.null)
+    | hj => runErrHist hj alone)
   let holds := checkC20 alone obs && argHolds && errHolds
   let mPaths := sortStrs (sys.sh.pathCache.map (·.1))
   let iPaths := sortStrs (pc.map (·.1))
@@ -314,20 +332,24 @@ def run (j : Json) : Except String Json := do
   let finished := sys.threads.all fun p => match p with | .done _ => true | _ => false
   let mOutsV := sys.threads.filterMap fun p => match p with | .done o => some o | _ => none
   -- the model of the error bookkeeping, for the re-entry cases it can express
-  let (reAgree, reModel) ← (match j.getObjVal? "rspec" with
-    | .ok rj => do
+  let (reAgree, reModel) ← (match ← j.getObjVal? "rspec" with
+    | .null => pure (true, Json.null)
+    | rj => do
       let spec ← rspecOfJson (← rj.getObjVal? "spec")
       let labels ← (← arr (← rj.getObjVal? "labels")).mapM fun x => x.getStr?
       let errs ← (← arr (← rj.getObjVal? "errs")).mapM fun e => do
         match ← arr e with
         | [id, .str c] => return (← id.getNat?, c)
         | _ => throw s!"bad errs entry {e.compress}"
-      let iSkel ← (match impl.getObjVal? "skeleton" with
-        | .ok (.arr a) => a.toList.mapM fun l => do
+      let iSkel ← (match ← impl.getObjVal? "skeleton" with
+        | .arr a => a.toList.mapM fun l => do
           match ← arr l with
           | [d, .str k, .str t] => return (← d.getNat?, k, if k == "X" then t else take24 t)
           | _ => throw s!"bad skeleton line {l.compress}"
-        | _ => pure [])
+        | .null => (match iOuts.head? with
+          | some (.err _ _) => throw "skeleton is required when the modelled call failed"
+          | _ => pure [])
+        | x => throw s!"bad skeleton {x.compress}")
       match Re.runCall spec, iOuts.head? with
       | .val _, some (.val _) => pure (true, Json.mkObj [("outcome", "value")])
       | .err e tr, some (.err c _) =>
@@ -335,19 +357,20 @@ def run (j : Json) : Except String Json := do
         let mj := Json.arr (mSkel.map fun (d, k, t) => Json.arr #[toJson d, k, t]).toArray
         pure (errClass errs e == c && mSkel == iSkel, Json.mkObj [("outcome", errClass errs e), ("skeleton", mj)])
       | .val _, _ => pure (false, Json.mkObj [("outcome", "value")])
-      | .err e _, _ => pure (false, Json.mkObj [("outcome", errClass errs e)])
-    | .error _ => pure (true, Json.null))
+      | .err e _, _ => pure (false, Json.mkObj [("outcome", errClass errs e)]))
   let agree := finished && mOutsV == iOuts && mPaths == iPaths && mTypes == iTypes && !deadlock && reAgree && argAgree
     && specSame && errAgree
+  let present (k : String) : Bool := match j.getObjVal? k with | .ok .null => false | .ok _ => true | .error _ => false
   let nYield := (threads.map (fun t => countUser t.1)).foldl (· + ·) 0
   let anyErr := alone.any fun o => match o with | .err _ _ => true | _ => false
   let shape := if threads.any (fun t => t.1.any fun e => match e with | .nested _ _ => true | _ => false)
-    then (if (j.getObjVal? "rspec").toOption.isSome then "reentry-modelled" else "nested")
-    else if (j.getObjVal? "argsys").toOption.isSome then
-      (if (j.getObjVal? "schedule").toOption.isSome then "shared-argument-scheduled" else "shared-argument")
-    else if (j.getObjVal? "schedule").toOption.isSome then "scheduled" else "free"
+    then (if present "rspec" then "reentry-modelled" else "nested")
+    else if present "argsys" then
+      (if present "schedule" then "shared-argument-scheduled" else "shared-argument")
+    else if present "schedule" then "scheduled" else "free"
   -- did user code render an error that an enclosing call then re-finalized?
   let errTag := match j.getObjVal? "errhist" with
+    | .ok .null => ""
     | .ok hj => (match (hj.getObjVal? "ops").bind arr with
       | .ok opsj =>
         let kinds : List String := opsj.filterMap fun (o : Json) => match o with
